@@ -252,7 +252,7 @@ impl<E: Elem> World<E> {
             while mem.len() < n as usize {
                 mem.push(match E::KIND { "unit" => "u", "tok" => "d", _ => "0" }.to_string());
             }
-            if E::KIND == "tok" {
+            if E::COUNTED {
                 let (grown, shrunk) = ((n as usize).saturating_sub(old) as u64, old.saturating_sub(n as usize) as u64);
                 // the reference's own `dflt()` calls above are accounted for
                 let made_by_ref = grown;
